@@ -332,6 +332,19 @@ def close_deg(a, b):
 
 class C12(Family):
     prop = "C12"
+    # source-text tie (notes/NOTES-py2lean-arith.md): Generated/Poly{ZInvz,ZRealCrossing,ZMag1Crossing,
+    # IwRealCrossing,IwSqr,IwMag1Crossing,IwWstab}.lean are rewritten from the text of the `_poly_*` functions
+    # of control/margins.py of the tree under check on every run and proved equal to the model's test polynomials
+    extra_modules = ["CtrlVerif.Props.C12Gen"]
+
+    def pre_build(self):
+        import os
+        from core import py2lean_arith, leanproj
+        repo = os.environ.get("VERIF_REPO") or "/repo"
+        problems, self.gen_info = py2lean_arith.regenerate(
+            repo, leanproj.LEAN, ("poly_z_invz", "poly_z_real_crossing", "poly_z_mag1_crossing",
+                                  "poly_iw_real_crossing", "poly_iw_sqr", "poly_iw_mag1_crossing", "poly_iw_wstab"))
+        return problems
     externals = [
         "numpy.roots (returns all complex roots of the polynomial it is given; the polynomial is "
         "compared with the exactly recomputed one and the residual of every recorded root is recorded)",
